@@ -6,6 +6,7 @@ import (
 
 	//"sort"
 	"strings"
+	"unicode/utf8"
 
 	"google.golang.org/protobuf/types/known/structpb"
 )
@@ -50,6 +51,21 @@ func (vertex *Vertex) HasProperty(key string) bool {
 	return ok
 }
 
+// ValidateIdentifier returns an error if the value of the element field `name` (a
+// gid, a label or an edge endpoint) cannot be stored faithfully: the zero byte
+// separates the components of the keys of the key/value drivers (and is refused by
+// some of the other storage engines), text that is not valid UTF-8 has no protobuf
+// representation.
+func ValidateIdentifier(name, value string) error {
+	if strings.IndexByte(value, 0) >= 0 {
+		return fmt.Errorf("'%s' cannot contain a zero byte", name)
+	}
+	if !utf8.ValidString(value) {
+		return fmt.Errorf("'%s' must be valid UTF-8", name)
+	}
+	return nil
+}
+
 // Validate returns an error if the vertex is invalid
 func (vertex *Vertex) Validate() error {
 	if vertex.Gid == "" {
@@ -57,6 +73,12 @@ func (vertex *Vertex) Validate() error {
 	}
 	if vertex.Label == "" {
 		return errors.New("'label' cannot be blank")
+	}
+	if err := ValidateIdentifier("gid", vertex.Gid); err != nil {
+		return err
+	}
+	if err := ValidateIdentifier("label", vertex.Label); err != nil {
+		return err
 	}
 	for k := range vertex.GetDataMap() {
 		err := ValidateFieldName(k)
@@ -121,6 +143,11 @@ func (edge *Edge) Validate() error {
 	if edge.To == "" {
 		return errors.New("'to' cannot be blank")
 	}
+	for _, f := range [][2]string{{"gid", edge.Gid}, {"label", edge.Label}, {"from", edge.From}, {"to", edge.To}} {
+		if err := ValidateIdentifier(f[0], f[1]); err != nil {
+			return err
+		}
+	}
 	for k := range edge.GetDataMap() {
 		err := ValidateFieldName(k)
 		if err != nil {
@@ -157,6 +184,12 @@ func ValidateFieldName(k string) error {
 }
 
 func validate(k string) error {
+	if strings.IndexByte(k, 0) >= 0 {
+		return errors.New(`cannot contain a zero byte`)
+	}
+	if !utf8.ValidString(k) {
+		return errors.New(`must be valid UTF-8`)
+	}
 	if strings.ContainsAny(k, `!@#$%^&*()+={}[] :;"',.<>?/\|~`) {
 		return errors.New(`cannot contain: !@#$%^&*()+={}[] :;"',.<>?/\|~`)
 	}
